@@ -169,6 +169,8 @@ type CqlClientConnection struct {
 	ctx                context.Context
 	cancel             context.CancelFunc
 	payloadAccumulator *payloadAccumulator
+	// closeLock is held for reading while sending on outgoing or events, and for writing while Close closes them.
+	closeLock sync.RWMutex
 }
 
 func newCqlClientConnection(
@@ -433,12 +435,14 @@ func (c *CqlClientConnection) processIncomingFrame(incoming *frame.Frame) (abort
 		for _, handler := range c.handlers {
 			handler(incoming, c)
 		}
+		c.closeLock.RLock()
 		select {
 		case c.events <- incoming:
 			log.Debug().Msgf("%v: incoming event frame successfully delivered: %v", c, incoming)
 		default:
 			log.Error().Msgf("%v: events queue is full, discarding event frame: %v", c, incoming)
 		}
+		c.closeLock.RUnlock()
 	} else {
 		if err := c.inFlightHandler.onIncomingFrameReceived(incoming); err != nil {
 			log.Error().Err(err).Msgf("%v: incoming frame delivery failed: %v", c, incoming)
@@ -517,6 +521,8 @@ func (c *CqlClientConnection) Send(f *frame.Frame) (InFlightRequest, error) {
 	if f == nil {
 		return nil, fmt.Errorf("%v: frame cannot be nil", c)
 	}
+	c.closeLock.RLock()
+	defer c.closeLock.RUnlock()
 	if c.IsClosed() {
 		return nil, fmt.Errorf("%v: connection closed", c)
 	}
@@ -605,12 +611,14 @@ func (c *CqlClientConnection) Close() (err error) {
 		log.Debug().Msgf("%v: closing", c)
 		c.cancel()
 		err = c.conn.Close()
+		c.closeLock.Lock()
 		outgoing := c.outgoing
 		events := c.events
 		c.outgoing = nil
 		c.events = nil
 		close(outgoing)
 		close(events)
+		c.closeLock.Unlock()
 		c.inFlightHandler.close()
 		c.waitGroup.Wait()
 		if err != nil {
